@@ -485,4 +485,92 @@ theorem recordAll_spec (vs : List Int) : ∀ (h : Hist), Inv h →
 theorem new_inv (minV : Int) (maxV s : Nat) : Inv (new minV maxV s) := by
   simp [Inv, new]; rfl
 
+/-! ### snapshots -/
+
+/-- all counts are non-negative -/
+def NonNeg (h : Hist) : Prop := ∀ c ∈ h.counts, 0 ≤ c
+
+theorem modify_nonneg (l : List Int) (i : Nat) (n : Int) (hn : 0 ≤ n) (h : ∀ c ∈ l, 0 ≤ c) :
+    ∀ c ∈ l.modify i (· + n), 0 ≤ c := by
+  induction l generalizing i with
+  | nil => simp
+  | cons a l ih =>
+    cases i with
+    | zero =>
+      intro c hc
+      simp only [List.modify_zero_cons, List.mem_cons] at hc
+      rcases hc with rfl | hc
+      · have := h a (by simp); omega
+      · exact h c (by simp [hc])
+    | succ i =>
+      intro c hc
+      simp only [List.modify_succ_cons, List.mem_cons] at hc
+      rcases hc with rfl | hc
+      · exact h c (by simp)
+      · exact ih i (fun x hx => h x (by simp [hx])) c hc
+
+theorem recordValues_nonneg {h h' : Hist} {v n : Int} (hn : 0 ≤ n) (he : recordValues h v n = some h')
+    (hh : NonNeg h) : NonNeg h' := by
+  unfold recordValues at he
+  by_cases hv : v < 0
+  · simp [hv] at he
+  · simp only [hv, ite_false] at he
+    by_cases hi : countsIndexFor h v.toNat < 0 ∨ (h.countsLen : Int) ≤ countsIndexFor h v.toNat
+    · simp [hi] at he
+    · simp only [hi, ite_false, Option.some.injEq] at he
+      subst he
+      exact modify_nonneg _ _ _ hn hh
+
+theorem recordAll_nonneg (vs : List Int) : ∀ (h : Hist), NonNeg h → NonNeg (recordAll h vs) := by
+  induction vs with
+  | nil => intro h hh; exact hh
+  | cons v vs ih =>
+    intro h hh
+    have hstep : recordAll h (v :: vs) = recordAll ((recordValue h v).getD h) vs := by simp [recordAll]
+    rw [hstep]
+    cases hr : recordValue h v with
+    | none => simpa using ih h hh
+    | some h' => simpa using ih h' (recordValues_nonneg (by omega) hr hh)
+
+theorem sum_pos_eq_sum (l : List Int) (h : ∀ c ∈ l, 0 ≤ c) :
+    l.foldl (fun t c => if c > 0 then t + c else t) 0 = l.sum := by
+  have gen : ∀ (l : List Int) (a : Int), (∀ c ∈ l, 0 ≤ c) →
+      l.foldl (fun t c => if c > 0 then t + c else t) a = a + l.sum := by
+    intro l
+    induction l with
+    | nil => intro a _; simp
+    | cons x xs ih =>
+      intro a hx
+      simp only [List.foldl_cons, List.sum_cons]
+      have hx0 := hx x (by simp)
+      rw [ih _ (fun c hc => hx c (by simp [hc]))]
+      split <;> omega
+  simpa using gen l 0 h
+
+/-- `Import(Export(h)) = h` for every histogram built by `New` and any sequence of records -/
+theorem import_export (minV : Int) (maxV s : Nat) (vs : List Int) :
+    import_ (export_ (recordAll (new minV maxV s) vs)) = recordAll (new minV maxV s) vs := by
+  obtain ⟨inv, same, _⟩ := recordAll_spec vs (new minV maxV s) (new_inv minV maxV s)
+  have nn := recordAll_nonneg vs (new minV maxV s) (by intro c hc; simp [new] at hc; omega)
+  generalize recordAll (new minV maxV s) vs = h at *
+  have hf := same.fields
+  -- the configuration of h is that of `new`
+  have hcfg : { h with counts := [], total := 0 } = { new minV maxV s with counts := [], total := 0 } := same.symm
+  unfold import_ export_
+  simp only []
+  have hlow : h.lowest = minV := by have := congrArg Hist.lowest hcfg; simpa [new, mkCfg] using this
+  have hhigh : h.highest = maxV := by have := congrArg Hist.highest hcfg; simpa [new, mkCfg] using this
+  have hsig : h.sigfigs = s := by have := congrArg Hist.sigfigs hcfg; simpa [new, mkCfg] using this
+  rw [hlow, hhigh, hsig]
+  have hlen : (new minV maxV s).countsLen = h.countsLen := hf.2.2.2.2.1
+  have htake : h.counts.take (new minV maxV s).countsLen = h.counts := by
+    rw [hlen, ← inv.1]; simp
+  rw [htake, sum_pos_eq_sum _ nn, inv.2]
+  -- remaining: { new with counts := h.counts, total := h.total } = h
+  have : { h with counts := [], total := 0 } = { new minV maxV s with counts := [], total := 0 } := hcfg
+  cases h
+  simp only [Hist.mk.injEq] at this ⊢
+  simp_all [new, mkCfg]
+
+
 end Ftdc.Hdr
